@@ -222,6 +222,9 @@ pub fn gen_lzma2(t: &mut Tape, max_total: u64, strict_order: bool) -> Lzma2Built
             let target = match if tiny { 1 } else { t.below(10) } {
                 0 => 1,
                 1 => t.range(1, 4),
+                // a random program long enough for the longest matches (273) to fit,
+                // also from sources that lie entirely in older data
+                2 => t.range(250, 4000),
                 9 if room > 100_000 && t.below(8) == 0 => t.range(70_000, room.min(1 << 21)),
                 5..=8 if max_total > 100_000 && room > 100_000 => {
                     if t.below(4) == 0 {
